@@ -31,7 +31,7 @@ func (e *Eng) marshalLiterals() {
 				case *ssa.IndexAddr:
 					for _, rr := range *x.Referrers() {
 						if st, ok := rr.(*ssa.Store); ok {
-							if _, ok := st.Val.(*ssa.Const); !ok {
+							if !constByte(st.Val) {
 								return false
 							}
 						} else {
@@ -91,4 +91,20 @@ func (e *Eng) marshalLiterals() {
 		}
 		e.add(name, key, props, ok, detail)
 	}
+}
+
+// constByte: a constant, or a choice between constants (a separator picked by a condition)
+func constByte(v ssa.Value) bool {
+	switch x := v.(type) {
+	case *ssa.Const:
+		return true
+	case *ssa.Phi:
+		for _, e := range x.Edges {
+			if _, ok := e.(*ssa.Const); !ok {
+				return false
+			}
+		}
+		return true
+	}
+	return false
 }
